@@ -273,6 +273,13 @@ func lifeImpl(line string) string {
 		e.feedDone(chid, 2, true)
 		time.Sleep(20 * time.Millisecond)
 		parts = append(parts, watchdog(wd, func() string { p, err := ch.NextPackage(ctx, false); return "late=" + classify(p, err) }))
+		// a packet the reader had already looked the channel up for arrives after Close (with a body, and
+		// header-only like the acknowledgement of the teardown): it is dropped, the reader is not held up
+		parts = append(parts, watchdog(wd, func() string {
+			ch.WritePacket(&tds.Packet{Header: tds.PacketHeader{MsgType: 4, Status: tds.TDS_BUFSTAT_EOM, Length: 17}, Data: wDone(0xFD, 0, 0, 0)})
+			ch.WritePacket(&tds.Packet{Header: tds.PacketHeader{MsgType: 11, Status: tds.TDS_BUFSTAT_EOM, Length: 8}})
+			return "latewrite=ok"
+		}))
 		parts = append(parts, fmt.Sprintf("written=%d", len(e.mc.written())-before))
 		return strings.Join(parts, " ")
 	case "conn-close":
@@ -360,6 +367,33 @@ func lifeImpl(line string) string {
 			e.mc.feed(packetize(wDone(0xFD, 0, 0, 0), nil, 4, 0))
 		}
 		return watchdog(wd, func() string { ch.Close(); return "close=ok" })
+	case "abandon-close":
+		// the consumer's callback fails on a package of an unfinished response and the channel (c) or the
+		// connection (n) is closed before the rest arrives: the call that consumes the rest must return
+		which := "c"
+		if len(f) > 2 {
+			which = f[2]
+		}
+		e := newLifeEnv(100)
+		defer e.conn.VerifCancel()
+		ch := e.conn.VerifNewChannel(5)
+		e.feedDone(5, 3, false) // three packages, no end of message
+		if !waitQueued(ch, 3) {
+			return "setup"
+		}
+		cbErr := errors.New("callback failed")
+		return watchdog(wd, func() string {
+			_, err := ch.NextPackageUntil(context.Background(), true, func(tds.Package) (bool, error) {
+				if which == "n" {
+					go e.conn.Close()
+					time.Sleep(20 * time.Millisecond)
+				} else {
+					ch.Close()
+				}
+				return false, cbErr
+			})
+			return "until=" + classify(nil, err)
+		})
 	case "reader-exit-unknown":
 		// n packets for a channel that does not exist (late answers after the channel was closed, the rest
 		// of an abandoned response), nobody reads the connection's errors, then Conn.Close: the reader ends
@@ -409,6 +443,8 @@ func lifeOracle(line, out string) string {
 	}
 	if strings.Contains(out, "blocked") {
 		switch f[1] {
+		case "abandon-close":
+			return "after a channel is closed every call on it reports the closed condition (it does not block)"
 		case "close-pending", "close-errors", "closed-ops", "double-close", "conn-close", "reader-exit", "reader-exit-unknown":
 			return "Close returns in bounded time whatever the state of the receive queue and the peer"
 		}
@@ -463,6 +499,9 @@ func lifeOracle(line, out string) string {
 				return "after Close every call reports the closed condition and nothing is delivered"
 			}
 		}
+		if kv["latewrite"] != "ok" {
+			return "a packet arriving for a channel that was just closed is dropped (it does not hold up the reader)"
+		}
 		if kv["written"] != "0" {
 			return "after Close nothing is sent"
 		}
@@ -513,6 +552,9 @@ func init() {
 						emit(Case{Line: fmt.Sprintf("life cancel-mid-send %d %d %s", n, k, w), Kind: "cancel-mid-send"})
 					}
 				}
+			}
+			for _, w := range []string{"c", "n"} {
+				emit(Case{Line: "life abandon-close " + w, Kind: "closed"})
 			}
 			for _, c := range []int{0, 1, 7} {
 				emit(Case{Line: fmt.Sprintf("life closed-ops %d", c), Kind: "closed"})
@@ -574,7 +616,7 @@ func init() {
 			return f[1] + ":" + clause
 		},
 		Nontrivial: func(line, out string) bool { return true },
-		Rule:       "scenario scripts on the real Conn/Channel over the in-memory transport, each call under a 1.5 s watchdog: receives with a cancelled call/connection context (0..5 queued, 0..3 arriving packages, NextPackage and NextPackageUntil), sends with a cancelled context (lengths around the packet body size) followed by a live send, sends whose caller's / connection's context is cancelled while packet k of the message is written (every k), every call after Close, double Close, Conn.Close with 0..3 channels, Close with an abandoned response of capacity-2..capacity+8 packages, reader exit after 0..10 unconsumed read errors and after 3..15 packets for an unregistered channel",
+		Rule:       "scenario scripts on the real Conn/Channel over the in-memory transport, each call under a 1.5 s watchdog: receives with a cancelled call/connection context (0..5 queued, 0..3 arriving packages, NextPackage and NextPackageUntil), sends with a cancelled context (lengths around the packet body size) followed by a live send, sends whose caller's / connection's context is cancelled while packet k of the message is written (every k), every call after Close, double Close, Close of the channel / the connection from a failing callback while the rest of the response is outstanding, Conn.Close with 0..3 channels, Close with an abandoned response of capacity-2..capacity+8 packages, reader exit after 0..10 unconsumed read errors and after 3..15 packets for an unregistered channel",
 		Serial:     true,
 		Timed:      true, // answers depend on a 1.5 s watchdog: a failing case is re-run alone before it counts
 		NoShrink:   true,
